@@ -5,6 +5,10 @@ use std::sync::atomic::{AtomicBool, AtomicU64, AtomicUsize, Ordering::*};
 use std::sync::{Arc, Mutex};
 use std::time::{Duration, Instant};
 
+/// after this many calls that did not return the sweep stops handing out jobs (reported as truncated)
+pub const MAX_ABANDONED: usize = 16;
+pub static TRUNCATED: AtomicBool = AtomicBool::new(false);
+
 pub struct Slot {
     job: AtomicU64,
     start_ns: AtomicU64,
@@ -50,6 +54,7 @@ pub fn run_jobs(njobs: usize, nthreads: usize, limit: Duration, f: Arc<dyn Fn(us
         std::thread::Builder::new()
             .stack_size(64 << 20)
             .spawn(move || {
+                crate::exec::set_managed(true);
                 loop {
                     let j = next.fetch_add(1, SeqCst);
                     if j >= njobs {
@@ -89,6 +94,11 @@ pub fn run_jobs(njobs: usize, nthreads: usize, limit: Duration, f: Arc<dyn Fn(us
                     if s.job.load(Acquire) == job && s.start_ns.load(Acquire) == st {
                         s.abandoned.store(true, Release);
                         timeouts.push(Timeout { job: job as usize - 1, aux: s.aux.load(Relaxed), aux2: s.aux2.load(Relaxed) });
+                        if timeouts.len() >= MAX_ABANDONED {
+                            // every abandoned thread keeps a core busy: stop handing out jobs, report what was met
+                            next.store(njobs, SeqCst);
+                            TRUNCATED.store(true, SeqCst);
+                        }
                         spawn(&slots);
                     }
                 }
